@@ -99,6 +99,11 @@ func (e *Exec) invoke(fr *Frame, st State, cc *ssa.CallCommon, recv Val, args []
 		st = e.oblige(st, fr.fn, "nopanic.nil", "", pos, c.Ne(tag, c.Const(64, 0)))
 		return e.socketInvoke(fr, st, cc, Val{tag, word}, args, pos)
 	}
+	if strings.HasSuffix(cc.Value.Type().String(), "reflect.Type") {
+		if r, ok := e.reflectInvoke(st, name, Val{tag, word}); ok {
+			return r
+		}
+	}
 	var cands []types.Type
 	if tag.IsConst() {
 		if tag.C == 0 {
@@ -270,7 +275,15 @@ func (e *Exec) builtin(fr *Frame, st State, b *ssa.Builtin, cc *ssa.CallCommon, 
 		switch T.(type) {
 		case *types.Slice, *types.Basic:
 			return []Outcome{{st: st, ret: Val{args[0][1]}}}
-		case *types.Chan, *types.Map:
+		case *types.Map:
+			if g := mapGlobalOf(cc.Args[0]); g != nil {
+				_, ents := e.constMapFor(cc.Args[0], "len")
+				return []Outcome{{st: st, ret: Val{c.Const(64, uint64(len(ents)))}}}
+			}
+			r := c.Fresh("len", BV(64))
+			st = st.assume(c.Sle(c.Const(64, 0), r))
+			return []Outcome{{st: st, ret: Val{r}}}
+		case *types.Chan:
 			r := c.Fresh("len", BV(64))
 			st = st.assume(c.Sle(c.Const(64, 0), r))
 			return []Outcome{{st: st, ret: Val{r}}}
@@ -492,6 +505,9 @@ func (e *Exec) external(fr *Frame, st State, fn *ssa.Function, args []Val, pos t
 	if r, ok := e.externalEnv(fr, st, fn, args, pos); ok {
 		return r
 	}
+	if r, ok := e.reflectExternal(fr, st, name, args); ok {
+		return r
+	}
 	if strings.HasPrefix(name, "(*sync.") || strings.HasPrefix(name, "sync.") {
 		e.fail("sync primitive %s outside environment mode", name)
 	}
@@ -502,6 +518,11 @@ func (e *Exec) external(fr *Frame, st State, fn *ssa.Function, args []Val, pos t
 func (e *Exec) externalInvoke(fr *Frame, st State, cc *ssa.CallCommon, recv Val, args []Val, pos token.Pos) []Outcome {
 	if r, ok := e.externalInvokeEnv(fr, st, cc, recv, args, pos); ok {
 		return r
+	}
+	if strings.HasSuffix(cc.Value.Type().String(), "reflect.Type") {
+		if r, ok := e.reflectInvoke(st, cc.Method.Name(), recv); ok {
+			return r
+		}
 	}
 	e.fail("invoke of %s on foreign interface %v has no assumed contract", cc.Method.Name(), cc.Value.Type())
 	return nil
